@@ -77,9 +77,9 @@ def Node.checkTx (n : Node) (tx : Tx) : Node × TxResult :=
   ({ n with check := s }, r)
 
 /-- `EndBlock` : the governance messages due in this block -/
-def Node.endBlock (n : Node) (wall : Nat) (govs : List Msg) : Node × List Bool :=
-  let (s, rs) := govs.foldl (fun (acc : State × List Bool) m =>
-    let (s', ok) := govExec wall acc.1 m
+def Node.endBlock (n : Node) (wall : Nat) (govs : List (List Msg)) : Node × List Bool :=
+  let (s, rs) := govs.foldl (fun (acc : State × List Bool) ms =>
+    let (s', ok) := govExecAll wall acc.1 ms
     (s', acc.2 ++ [ok])) (n.working, [])
   ({ n with working := s }, rs)
 
@@ -95,7 +95,7 @@ period ends in it -/
 structure Block where
   time : Int
   txs : List Tx
-  govs : List Msg := []
+  govs : List (List Msg) := []
 
 /-- BeginBlock, every DeliverTx, EndBlock, Commit -/
 def Node.runBlock (n : Node) (wall : Nat) (b : Block) : M Node := do
